@@ -227,7 +227,7 @@ theorem neg_mul_clin (x : Plscf.Cx K) (n : Nat) (c : Nat → K) (u : Nat → Pls
   · rw [Finset.mul_sum, Finset.mul_sum, ← Finset.sum_add_distrib, ← Finset.sum_neg_distrib]
     apply Finset.sum_congr rfl; intro k _; ring
 
-theorem Yo_col {Nch : Nat} (hN : 0 < Nch) (Q : Nat → Nat → K) (Om : Nat → Plscf.Cx K)
+theorem Yo_col {Nch : Nat} (_hN : 0 < Nch) (Q : Nat → Nat → K) (Om : Nat → Plscf.Cx K)
     (S : Nat → Nat → Plscf.Cx K) (f J : Nat) :
     Yo Nch Om (colSy Nch Q S) f J
       = clin Nch (Q (J % Nch)) (fun q => Yo Nch Om S f (J / Nch * Nch + q)) := by
@@ -339,5 +339,239 @@ theorem Mmat_mix {Nch : Nat} (hN : 0 < Nch) (Nref Nf n : Nat) (R Q : Nat → Nat
   exact Mmat_col hN Q Nref Nf n Om Sy X I J
 
 end normal
+
+/-! ## 3. transport of the order certificate -/
+section cert
+variable {K : Type} [Field K]
+
+theorem rmix_congr {m : Nat} (Q : Nat → Nat → K) (g h : Nat → K) (c : Nat) (e : ∀ b, b < m → g b = h b) :
+    rmix m Q g c = rmix m Q h c := by
+  unfold rmix
+  apply sumTo_congr; intro b hb; rw [e b hb]
+
+theorem rmix_sum (m : Nat) (Q : Nat → Nat → K) (N : Nat) (g : Nat → Nat → K) (c : Nat) :
+    rmix m Q (fun b => ∑ k ∈ range N, g k b) c = ∑ k ∈ range N, rmix m Q (g k) c := by
+  simp only [rmix, sumTo_eq, Finset.mul_sum]
+  rw [Finset.sum_comm]
+
+theorem rmix_smul (m : Nat) (Q : Nat → Nat → K) (x : K) (g : Nat → K) (c : Nat) :
+    rmix m Q (fun b => x * g b) c = x * rmix m Q g c := by
+  simp only [rmix, sumTo_eq, Finset.mul_sum]
+  apply Finset.sum_congr rfl; intro q _; ring
+
+/-- `Σ_J (Σ_p u_p·f_p J)·(Σ_b v_b·g_b J) = Σ_p Σ_b u_p·v_b·Σ_J f_p J·g_b J` -/
+theorem sum_mul_pair (N A B : Nat) (u v : Nat → K) (f g : Nat → Nat → K) :
+    ∑ J ∈ range N, (∑ p ∈ range A, u p * f p J) * (∑ b ∈ range B, v b * g b J)
+      = ∑ p ∈ range A, ∑ b ∈ range B, (u p * v b) * ∑ J ∈ range N, f p J * g b J := by
+  have e : ∀ J ∈ range N, (∑ p ∈ range A, u p * f p J) * (∑ b ∈ range B, v b * g b J)
+      = ∑ p ∈ range A, ∑ b ∈ range B, (u p * v b) * (f p J * g b J) := by
+    intro J _
+    rw [Finset.sum_mul_sum]
+    apply Finset.sum_congr rfl; intro p _
+    apply Finset.sum_congr rfl; intro b _; ring
+  rw [Finset.sum_congr rfl e, Finset.sum_comm]
+  apply Finset.sum_congr rfl; intro p _
+  rw [Finset.sum_comm]
+  apply Finset.sum_congr rfl; intro b _
+  rw [Finset.mul_sum]
+
+/-- `(I⊗Q)·α·Qᵀ` — an array of `Nch` columns: rows mixed inside every block, columns mixed by `Q` -/
+def mixAlpha (m : Nat) (Q : Nat → Nat → K) (α : Nat → Nat → K) : Nat → Nat → K :=
+  fun I c => rmix m Q (fun b => bmix m Q (fun I' => α I' b) I) c
+
+theorem mixAlpha_comm (m : Nat) (Q : Nat → Nat → K) (H : Nat → Nat → K) (I c : Nat) :
+    mixAlpha m Q H I c = bmix m Q (fun I' => rmix m Q (H I') c) I := by
+  simp only [mixAlpha, rmix, bmix, sumTo_eq, Finset.mul_sum]
+  rw [Finset.sum_comm]
+  apply Finset.sum_congr rfl; intro a _
+  apply Finset.sum_congr rfl; intro b _; ring
+
+theorem bmix2_shift {m : Nat} (hm : 0 < m) (Q : Nat → Nat → K) (G : Nat → Nat → K) (k k' I J : Nat) :
+    bmix2 m Q G (k * m + I) (k' * m + J) = bmix2 m Q (fun I J => G (k * m + I) (k' * m + J)) I J := by
+  rw [bmix2_eq', bmix_shift hm, bmix2_eq']
+  simp only [bmix_shift hm]
+
+theorem bmix2_shift1 {m : Nat} (hm : 0 < m) (Q : Nat → Nat → K) (G : Nat → Nat → K) (I J : Nat) :
+    bmix2 m Q G (m + I) (m + J) = bmix2 m Q (fun I J => G (m + I) (m + J)) I J := by
+  have := bmix2_shift hm Q G 1 1 I J
+  simpa only [Nat.one_mul] using this
+
+/-- entry `(I, k'·m + c)`, `c < m`, of `(I⊗Q)·G·(I⊗Q)ᵀ` -/
+theorem bmix2_col {m : Nat} (hm : 0 < m) (Q : Nat → Nat → K) (G : Nat → Nat → K) (k' I c : Nat) (hc : c < m) :
+    bmix2 m Q G I (k' * m + c) = mixAlpha m Q (fun I c => G I (k' * m + c)) I c := by
+  rw [bmix2_eq', mixAlpha_comm]
+  apply bmix_congr; intro a _
+  rw [bmix_shift hm, bmix_low Q _ c hc]
+
+/-- **a solve transported**: `G·Z = H` gives `((I⊗Q)G(I⊗Q)ᵀ)·((I⊗Q)ZQᵀ) = (I⊗Q)HQᵀ` (`QᵀQ = I`) -/
+theorem solve_mix {m : Nat} (nb : Nat) (Q : Nat → Nat → K) (hQ : OrthoOn m Q) (G Z H : Nat → Nat → K)
+    (h : ∀ I, I < nb * m → ∀ c, c < m → ∑ J ∈ range (nb * m), G I J * Z J c = H I c) :
+    ∀ I, I < nb * m → ∀ c, c < m →
+      ∑ J ∈ range (nb * m), bmix2 m Q G I J * mixAlpha m Q Z J c = mixAlpha m Q H I c := by
+  intro I hI c hc
+  rw [mixAlpha_comm m Q H]
+  simp only [bmix2_eq, mixAlpha, rmix_eq]
+  rw [sum_mul_pair, bmix_eq]
+  apply Finset.sum_congr rfl; intro a ha
+  rw [Finset.mul_sum]
+  apply Finset.sum_congr rfl; intro b hb
+  rw [bmix_isometry nb m Q hQ, h _ (Cov.blk_lt hI (mem_range.mp ha)) b (mem_range.mp hb)]
+  ring
+
+theorem alphaLO_mix {Nch : Nat} (hN : 0 < Nch) (Q : Nat → Nat → K) (hQ : OrthoOn Nch (trQ Q)) (Z : Nat → Nat → K)
+    (I c : Nat) (hc : c < Nch) :
+    alphaLO Nch (mixAlpha Nch Q Z) I c = mixAlpha Nch Q (alphaLO Nch Z) I c := by
+  by_cases h : I < Nch
+  · have e : mixAlpha Nch Q (alphaLO Nch Z) I c
+        = rmix Nch Q (fun b => rmix Nch Q (fun a' => if a' = b then (1 : K) else 0) I) c := by
+      unfold mixAlpha
+      apply rmix_congr; intro b _
+      rw [bmix_low Q _ I h]
+      apply rmix_congr; intro a ha
+      simp only [alphaLO, if_pos ha]
+    rw [e, rmix_delta Q hQ I c h hc]
+    simp only [alphaLO, if_pos h]
+  · have e : I = Nch + (I - Nch) := by omega
+    have e1 : alphaLO Nch (mixAlpha Nch Q Z) I c = mixAlpha Nch Q Z (I - Nch) c := by
+      simp only [alphaLO, if_neg h]
+    rw [e1]
+    unfold mixAlpha
+    apply rmix_congr; intro b _
+    conv_rhs => rw [e, bmix_shift1 hN]
+    apply bmix_congr; intro q _
+    simp [alphaLO]
+
+theorem alphaHI_mix {Nch : Nat} (hN : 0 < Nch) (Q : Nat → Nat → K) (hQ : OrthoOn Nch (trQ Q)) (n : Nat)
+    (Z : Nat → Nat → K) (I c : Nat) (hI : I < (n + 1) * Nch) (hc : c < Nch) :
+    alphaHI Nch n (mixAlpha Nch Q Z) I c = mixAlpha Nch Q (alphaHI Nch n Z) I c := by
+  by_cases h : I < n * Nch
+  · have e1 : alphaHI Nch n (mixAlpha Nch Q Z) I c = mixAlpha Nch Q Z I c := by
+      simp only [alphaHI, if_pos h]
+    rw [e1]
+    unfold mixAlpha
+    apply rmix_congr; intro b _
+    apply bmix_congr; intro q hq
+    simp only [alphaHI, if_pos (Cov.blk_lt h hq)]
+  · have ha : I - n * Nch < Nch := by rw [Nat.succ_mul] at hI; omega
+    have e : I = n * Nch + (I - n * Nch) := by omega
+    have e1 : alphaHI Nch n (mixAlpha Nch Q Z) I c = if I - n * Nch = c then 1 else 0 := by
+      simp only [alphaHI, if_neg h]
+    have e2 : mixAlpha Nch Q (alphaHI Nch n Z) I c
+        = rmix Nch Q (fun b => rmix Nch Q (fun a' => if a' = b then (1 : K) else 0) (I - n * Nch)) c := by
+      unfold mixAlpha
+      apply rmix_congr; intro b _
+      conv_lhs => rw [e, bmix_shift hN, bmix_low Q _ _ ha]
+      apply rmix_congr; intro a _
+      simp [alphaHI]
+    rw [e1, e2, rmix_delta Q hQ _ c ha hc]
+
+/-- the numerator coefficients of the mixed run: `beta'[o, t, :] = Σ_p R[o, p]·beta[p, t, :]·Qᵀ` -/
+def mixBeta (Nref Nch : Nat) (R Q : Nat → Nat → K) (β : Nat → Nat → Nat → K) : Nat → Nat → Nat → K :=
+  fun o t c => rmix Nref R (fun p => rmix Nch Q (fun b => β p t b) c) o
+
+/-- what the mixed run returns for one order, in terms of the original run: `M' = (I⊗Q)·M·(I⊗Q)ᵀ`, `alpha'`
+    built — as the code does — from the solve `Z' = (I⊗Q)·Z·Qᵀ` and an identity block, `beta'` -/
+def mixOut (Nch Nref n : Nat) (hi : Bool) (R Q : Nat → Nat → K) (out : OrderOut K) (Z : Nat → Nat → K) :
+    OrderOut K :=
+  { M := bmix2 Nch Q out.M,
+    alpha := if hi then alphaHI Nch n (mixAlpha Nch Q Z) else alphaLO Nch (mixAlpha Nch Q Z),
+    beta := mixBeta Nref Nch R Q out.beta }
+
+/-- **certificate transport**: what a returned order certifies for `Sy`, it certifies — with
+    `M' = (I⊗Q)·M·(I⊗Q)ᵀ`, `alpha' = (I⊗Q)·alpha·Qᵀ`, `beta'[o] = Σ_p R[o,p]·beta[p]·Qᵀ` and the solves
+    mixed — for the mixed array `R·Sy·Qᵀ`. -/
+theorem OrderCert.mix {Nch Nref Nf n : Nat} {hi : Bool} {Om : Nat → Plscf.Cx K}
+    {Sy : Nat → Nat → Nat → Plscf.Cx K} {out : OrderOut K} {X : Nat → Nat → Nat → K} {Z : Nat → Nat → K}
+    (h : OrderCert Nch Nref Nf n hi Om Sy out X Z) (hN : 0 < Nch) {R Q : Nat → Nat → K}
+    (hQ : Orth2 Nch Q) (hR : OrthoOn Nref R) :
+    OrderCert Nch Nref Nf n hi Om (mixSy Nref Nch R Q Sy) (mixOut Nch Nref n hi R Q out Z)
+      (mixX Nref Nch R Q X) (mixAlpha Nch Q Z)
+    ∧ ∀ I, I < (n + 1) * Nch → ∀ c, c < Nch →
+        (mixOut Nch Nref n hi R Q out Z).alpha I c = mixAlpha Nch Q out.alpha I c := by
+  have hα : ∀ I, I < (n + 1) * Nch → ∀ c, c < Nch →
+      (mixOut Nch Nref n hi R Q out Z).alpha I c = mixAlpha Nch Q out.alpha I c := by
+    intro I hI c hc
+    have hz := h.hZ
+    cases hi
+    · simp only [Bool.false_eq_true, ↓reduceIte] at hz
+      simp only [mixOut, Bool.false_eq_true, ↓reduceIte]
+      rw [hz.2]; exact alphaLO_mix hN Q hQ.rows Z I c hc
+    · simp only [↓reduceIte] at hz
+      simp only [mixOut, ↓reduceIte]
+      rw [hz.2]; exact alphaHI_mix hN Q hQ.rows n Z I c hI hc
+  have hd : (n + 1) * Nch = n * Nch + Nch := Nat.succ_mul n Nch
+  refine ⟨⟨?_, ?_, ?_, ?_⟩, hα⟩
+  · intro o ho i hi' J hJ
+    rw [So_mix hN, sumTo_eq]
+    have e : ∀ p, p < Nref → bmix Nch Q (So Nch Nf Om (Sy p) i) J
+        = ∑ t ∈ range (n + 1), Ro Nf Om i t * bmix Nch Q (X p t) J := by
+      intro p hp
+      have : bmix Nch Q (So Nch Nf Om (Sy p) i) J
+          = bmix Nch Q (fun J' => ∑ t ∈ range (n + 1), Ro Nf Om i t * X p t J') J := by
+        apply bmix_congr; intro q hq
+        rw [← h.hX p hp i hi' _ (Cov.blk_lt hJ hq), sumTo_eq]
+      rw [this, bmix_sum]
+      apply Finset.sum_congr rfl; intro t _
+      rw [bmix_smul]
+    rw [rmix_congr R _ _ o e, rmix_sum]
+    apply Finset.sum_congr rfl; intro t _
+    rw [rmix_smul]
+    rfl
+  · intro I hI J hJ
+    show bmix2 Nch Q out.M I J = _
+    rw [Mmat_mix hN Nref Nf n R Q hR]
+    apply bmix2_congr; intro a ha b hb
+    exact h.hM _ (Cov.blk_lt hI ha) _ (Cov.blk_lt hJ hb)
+  · have hz := h.hZ
+    cases hi
+    · simp only [Bool.false_eq_true, ↓reduceIte] at hz ⊢
+      refine ⟨?_, by simp [mixOut]⟩
+      intro I hI c hc
+      have hs := solve_mix n Q hQ.cols (fun I J => - out.M (Nch + I) (Nch + J)) Z (fun I c => out.M (Nch + I) c)
+        (by intro I hI c hc; have := hz.1 I hI c hc; rwa [sumTo_eq] at this) I hI c hc
+      rw [sumTo_eq]
+      show ∑ J ∈ range (n * Nch), -bmix2 Nch Q out.M (Nch + I) (Nch + J) * mixAlpha Nch Q Z J c
+        = bmix2 Nch Q out.M (Nch + I) c
+      have e2 : bmix2 Nch Q out.M (Nch + I) c = mixAlpha Nch Q (fun I c => out.M (Nch + I) c) I c := by
+        have := bmix2_col hN Q out.M 0 (Nch + I) c hc
+        simp only [Nat.zero_mul, Nat.zero_add] at this
+        rw [this, mixAlpha_comm, mixAlpha_comm, bmix_shift1 hN]
+      rw [e2, ← hs]
+      apply Finset.sum_congr rfl; intro J _
+      rw [bmix2_shift1 hN, ← bmix2_neg]
+    · simp only [↓reduceIte] at hz ⊢
+      refine ⟨?_, by simp [mixOut]⟩
+      intro I hI c hc
+      have hs := solve_mix n Q hQ.cols (fun I J => - out.M I J) Z (fun I c => out.M I (n * Nch + c))
+        (by intro I hI c hc; have := hz.1 I hI c hc; rwa [sumTo_eq] at this) I hI c hc
+      rw [sumTo_eq]
+      show ∑ J ∈ range (n * Nch), -bmix2 Nch Q out.M I J * mixAlpha Nch Q Z J c
+        = bmix2 Nch Q out.M I (n * Nch + c)
+      rw [bmix2_col hN Q out.M n I c hc, ← hs]
+      apply Finset.sum_congr rfl; intro J _
+      rw [← bmix2_neg]
+  · intro o ho i hi' c hc
+    rw [sumTo_eq, sumTo_eq]
+    have e1 : ∀ J ∈ range ((n + 1) * Nch),
+        So Nch Nf Om (mixSy Nref Nch R Q Sy o) i J * (mixOut Nch Nref n hi R Q out Z).alpha J c
+        = (∑ p ∈ range Nref, R o p * bmix Nch Q (So Nch Nf Om (Sy p) i) J)
+          * (∑ b ∈ range Nch, Q c b * bmix Nch Q (fun I' => out.alpha I' b) J) := by
+      intro J hJ
+      rw [So_mix hN, hα J (mem_range.mp hJ) c hc]
+      simp only [mixAlpha, rmix_eq]
+    rw [Finset.sum_congr rfl e1, sum_mul_pair]
+    show ∑ t ∈ range (n + 1), -Ro Nf Om i t * mixBeta Nref Nch R Q out.beta o t c = _
+    simp only [mixBeta, rmix_eq, Finset.mul_sum]
+    rw [Finset.sum_comm]
+    apply Finset.sum_congr rfl; intro p hp
+    rw [Finset.sum_comm]
+    apply Finset.sum_congr rfl; intro b hb
+    rw [← Finset.mul_sum, bmix_isometry (n + 1) Nch Q hQ.cols]
+    have := h.hbeta p (mem_range.mp hp) i hi' b (mem_range.mp hb)
+    rw [sumTo_eq, sumTo_eq] at this
+    rw [← this, Finset.mul_sum]
+    apply Finset.sum_congr rfl; intro t _; ring
+
+end cert
 
 end PV.Cov
